@@ -21,6 +21,9 @@ pub enum Case06 {
     AllAtOnce { class: String, i: usize },
     /// two known-class instances with a Ref between them and a SharedString
     Topology { variant: usize },
+    /// one instance of `class` whose Ref-typed property `prop` (any spelling) points at 0 = a later sibling,
+    /// 1 = an earlier sibling, 2 = itself, 3 = its child
+    RefProp { class: String, prop: String, target: u8 },
 }
 
 fn value_alphabet(ty: VariantType) -> Vec<Variant> {
@@ -47,11 +50,9 @@ fn declared_type(class: &str, prop: &str) -> Option<VariantType> {
 }
 
 fn pick(len: usize, tier: Tier) -> Vec<usize> {
-    if tier == Tier::Thorough || len <= 4 {
-        (0..len).collect()
-    } else {
-        vec![0, 1, len / 2, len - 1]
-    }
+    // every alphabet value in both tiers (the quick tier used to take 4 of them; the whole sweep is ~2 s)
+    let _ = tier;
+    (0..len).collect()
 }
 
 fn props_of(dom: &WeakDom, mode: FloatMode) -> Result<Vec<(String, String, BTreeMap<String, String>)>, String> {
@@ -297,6 +298,28 @@ pub fn judge(c: &Case06) -> Vec<(String, String)> {
             let dom = WeakDom::new(InstanceBuilder::new("DataModel").with_child(b));
             judge_dom(&dom, &set, "all-at-once", &format!("{} with all properties, value index {}", class, i))
         }
+        Case06::RefProp { class, prop, target } => {
+            if declared_type(class, prop) != Some(VariantType::Ref) {
+                return vec![];
+            }
+            let x = InstanceBuilder::new(class.as_str()).with_name("x");
+            let t = InstanceBuilder::new("Folder").with_name("t");
+            let (xr, tr) = (x.referent(), t.referent());
+            let dom = match target {
+                0 => WeakDom::new(InstanceBuilder::new("DataModel").with_child(x.with_property(prop.as_str(), tr)).with_child(t)),
+                1 => WeakDom::new(InstanceBuilder::new("DataModel").with_child(t).with_child(x.with_property(prop.as_str(), tr))),
+                2 => WeakDom::new(InstanceBuilder::new("DataModel").with_child(x.with_property(prop.as_str(), xr)).with_child(t)),
+                _ => WeakDom::new(InstanceBuilder::new("DataModel").with_child(x.with_property(prop.as_str(), tr).with_child(t))),
+            };
+            let mut set = BTreeSet::new();
+            set.insert(canonical_of(class, prop));
+            let spelling = if canonical_of(class, prop) == *prop { "canonical" } else { "alias" };
+            let serialized_differs = match specdb::lookup(class, prop) {
+                Lookup::Known(k) => matches!(k.ser, Ser::As { .. }),
+                _ => false,
+            };
+            judge_dom(&dom, &set, &format!("ref-target|{}{}", spelling, if serialized_differs { "|serialized-under-other-name" } else { "" }), &format!("{}.{} -> {}", class, prop, ["later sibling", "earlier sibling", "itself", "its child"][*target as usize]))
+        }
         Case06::Topology { variant } => {
             // ObjectValue.Value (Ref) and SharedString-typed known property
             let a = InstanceBuilder::new("Model").with_name("a");
@@ -347,7 +370,7 @@ pub fn cases(tier: Tier) -> Vec<Case06> {
                 }
             }
         }
-        let k = if tier == Tier::Quick { 2 } else { 8 };
+        let k = if tier == Tier::Quick { 4 } else { 24 };
         for i in 0..k {
             out.push(Case06::AllAtOnce { class: c.clone(), i });
         }
@@ -355,6 +378,18 @@ pub fn cases(tier: Tier) -> Vec<Case06> {
     for v in 0..16 {
         out.push(Case06::Topology { variant: v });
     }
+    // every Ref-typed property spelling of every class with a target inside the file
+    let mut extra = Vec::new();
+    for c in &out {
+        if let Case06::Single { class, prop, value: 0 } = c {
+            if declared_type(class, prop) == Some(VariantType::Ref) {
+                for target in 0..4u8 {
+                    extra.push(Case06::RefProp { class: class.clone(), prop: prop.clone(), target });
+                }
+            }
+        }
+    }
+    out.extend(extra);
     out
 }
 
